@@ -180,7 +180,7 @@ def vacancy_part(ctx):
                 ctx.case(('vac', name, label, t, str(d['eneT0'])), nontrivial=True); ctx.count('vacancy:' + label)
                 for a, b, nm in zip(L, L2, ('L0vv', 'Lss', 'Lsv', 'L1vv')):
                     dev = np.abs(np.asarray(b) - factor * np.asarray(a)).max()
-                    if not np.all(np.isfinite(b)) or dev > tolrel * sc * max(1.0, factor):
+                    if not np.all(np.isfinite(b)) or dev > tolrel * sc * factor:
                         ctx.violation('vacancy-not-invariant:%s:%s' % (label, nm),
                                       '%s of %s changes by %.3g (scale %.3g) under %s' % (nm, name, dev, sc, label), dict(rep, transformed=vc.jsonable(d2), kT=kT2))
                         return
@@ -201,6 +201,13 @@ def vacancy_part(ctx):
             f = math.exp(rng.uniform(-4, 4))
             d7 = dict(d); d7['preT0'] = d['preT0'] * f; d7['preT1'] = d['preT1'] * f; d7['preT2'] = d['preT2'] * f
             compare('rate-scale', d7, kT, f, 1e-7)
+            # absolute rates many decades away from 1 (barriers of 15 - 30 kT are the normal case): still exactly homogeneous
+            f = 10.0 ** rng.choice([-13, -11, -9, -7, 7, 10])
+            d8 = dict(d); d8['preT0'] = d['preT0'] * f; d8['preT1'] = d['preT1'] * f; d8['preT2'] = d['preT2'] * f
+            compare('rate-scale-decades', d8, kT, f, 1e-7)
+            c = rng.choice([18.0, 25.0, 32.0])
+            d9 = dict(d); d9['eneT0'] = d['eneT0'] + c; d9['eneT1'] = d['eneT1'] + c; d9['eneT2'] = d['eneT2'] + c
+            compare('barrier-shift', d9, kT, math.exp(-c / kT), 1e-7)
 
 
 def search(ctx, reasons):
